@@ -171,7 +171,16 @@ def check_rest_attempted(ck: Checker, m: "TransferModel", rule: str) -> None:
     ck.floor(rule, len(m.trailing_add), 1, "add of the loose (non-directory) files after the directory loop")
     tids = {x.id for x, _c in m.trailing_add}
     starts = [d for lab, d in m.head.succ if lab == "F"]
-    reached = g.reach(starts, skip_node=lambda n: n.id in tids, skip_edge=lambda a, lab, b: lab == "exc", include_start=True)
+    # nothing to attempt when the pool of loose files is empty (`if file_ids:` around the call)
+    pools = {norm(get_arg(c_, m.adder, "hash_infos", pos=2)) for _x, c_ in m.trailing_add if get_arg(c_, m.adder, "hash_infos", pos=2) is not None}
+
+    def nothing_loose(a, lab, b):
+        if lab == "exc":
+            return True
+        t_ = norm(a.ast) if a.kind == "test" and a.ast is not None else None
+        return any((t_ == p_ and lab == "F") or (t_ == f"not {p_}" and lab == "T") for p_ in pools)
+
+    reached = g.reach(starts, skip_node=lambda n: n.id in tids, skip_edge=nothing_loose, include_start=True)
     bad = g.exit in reached and not all(s_ in tids for s_ in starts)
     ck.require(not bad, rule, move, m.trailing_add[0][0] if m.trailing_add else move.node,
                "after the directory loop the loose files are always attempted before the routine returns",
